@@ -40,32 +40,42 @@ def main():
             """steady voltage change (mV) at x for I nA injected at x0 on a cable sealed at 0 and L"""
             lo, hi = min(x, x0), max(x, x0)
             return p["I"] * 1e-9 * Rlam * math.cosh(lo / lam) * math.cosh((p["L"] - hi) / lam) / math.sinh(p["L"] / lam) * 1e3
-        for vs in backends:
-            errs = []
-            for n in rungs:
-                comp = jx.Compartment()
-                br = jx.Branch(comp, ncomp=n)
-                l = p["L"] / n
-                br.set("length", l)
-                br.set("radius", p["r"])
-                br.set("axial_resistivity", p["ra"])
-                br.set("capacitance", p["cm"])
-                br.insert(Leak())
-                br.set("Leak_gLeak", p["g"])
-                br.set("Leak_eLeak", p["E"])
-                br.set("v", p["E"])
-                br.comp(0).stimulate(jnp.asarray([p["I"]] * 3), verbose=False)
-                br.record("v", verbose=False)
-                v = np.asarray(jx.integrate(br, delta_t=1e9, voltage_solver=vs))[:, -1]      # backward Euler, dt -> inf: steady state
-                evals += 1
-                x0 = l / 2
-                exact = np.asarray([p["E"] + green((i + 0.5) * l, x0) for i in range(n)])
-                errs.append(float(np.max(np.abs(v - exact)) / abs(exact[0] - p["E"])))
-            orders = [math.log2(errs[i] / errs[i + 1]) for i in range(len(errs) - 1)]
-            results["space_case%d_%s" % (ci, vs)] = {"L_over_lambda": p["L"] / lam, "rel_errors": errs, "orders": orders}
-            if not all(1.8 <= o <= 2.2 for o in orders[1:]) or errs[-1] > 2e-3:
-                chk.violation({"what": "steady state of a sealed cable does not converge at second order in the compartment length",
-                               "voltage_solver": vs}, {"params": p, "errors": errs, "orders": orders})
+        # the same cable as one branch, and cut into two branches in series (a branch point in the middle) whose
+        # capacitances differ from 1 and from each other: the steady state and the order do not depend on either
+        for variant, cms in (("one_branch", [p["cm"]]), ("two_branches", [2.0, 0.7])):
+            for vs in backends:
+                errs = []
+                for n in rungs:
+                    comp = jx.Compartment()
+                    l = p["L"] / n
+                    if len(cms) == 1:
+                        br = jx.Branch(comp, ncomp=n)
+                    else:
+                        br = jx.Cell([jx.Branch(comp, ncomp=n // 2), jx.Branch(comp, ncomp=n // 2)], parents=[-1, 0])
+                    br.set("length", l)
+                    br.set("radius", p["r"])
+                    br.set("axial_resistivity", p["ra"])
+                    if len(cms) == 1:
+                        br.set("capacitance", cms[0])
+                    else:
+                        for b_, cm_ in enumerate(cms):
+                            br.branch(b_).set("capacitance", cm_)
+                    br.insert(Leak())
+                    br.set("Leak_gLeak", p["g"])
+                    br.set("Leak_eLeak", p["E"])
+                    br.set("v", p["E"])
+                    (br.comp(0) if len(cms) == 1 else br.branch(0).comp(0)).stimulate(jnp.asarray([p["I"]] * 3), verbose=False)
+                    br.record("v", verbose=False)
+                    v = np.asarray(jx.integrate(br, delta_t=1e9, voltage_solver=vs))[:, -1]      # backward Euler, dt -> inf: steady state
+                    evals += 1
+                    x0 = l / 2
+                    exact = np.asarray([p["E"] + green((i + 0.5) * l, x0) for i in range(n)])
+                    errs.append(float(np.max(np.abs(v - exact)) / abs(exact[0] - p["E"])))
+                orders = [math.log2(errs[i] / errs[i + 1]) for i in range(len(errs) - 1)]
+                results["space_case%d_%s_%s" % (ci, variant, vs)] = {"L_over_lambda": p["L"] / lam, "rel_errors": errs, "orders": orders}
+                if not all(1.8 <= o <= 2.2 for o in orders[1:]) or errs[-1] > 2e-3:
+                    chk.violation({"what": "steady state of a sealed cable does not converge at second order in the compartment length",
+                                   "voltage_solver": vs, "cable": variant}, {"params": p, "capacitances": cms, "errors": errs, "orders": orders})
     # ---------------- single compartment: steady state under constant current (absolute units), RC relaxation ----------------
     sc = dict(r=2.0, l=30.0, g=2e-4, E=-70.0, cm=1.5, I=0.02, v0=-50.0)
     area_cm2 = 2 * math.pi * sc["r"] * sc["l"] * 1e-8
@@ -118,7 +128,7 @@ def main():
             "structure (C02) these are the hypotheses of the Lax theorem (trusted). On the real code a deterministic ladder ncomp = 4*2^k "
             "against the Green's function of a sealed cable (absolute units: um, ohm cm, S/cm2, nA, mV) and dt = 0.5/2^k against the RC "
             "relaxation must show observed orders in [1.8, 2.2] / [0.9, 1.1] and the analytic steady state E + I/(g*A) must be a fixed point.")
-    chk.set("rule", "refinement ladders on %d cable geometries x 3 backends (space) and 2 solvers x 3 backends (time); orders from consecutive rungs" % len(cases))
+    chk.set("rule", "refinement ladders on %d cable geometries x {one branch, two branches in series with capacitances 2.0 / 0.7} x 3 backends (space) and 2 solvers x 3 backends (time); orders from consecutive rungs" % len(cases))
     chk.sample({k: results[k] for k in list(results)[:2]})
     chk.assume("Lax equivalence theorem", "observed orders are taken on the rungs after the first")
     return chk.finish()
